@@ -28,6 +28,64 @@ theorem C15_message_head (P : Proc) (vf : Err → Str) (trim : List Str) (e : Er
   · exact List.IsPrefix.trans h (List.prefix_append _ _)
   · exact h
 
+/-! ### one composition line per layer -/
+
+/-- the composition lines, innermost layer first: each is computed from the loop state before it -/
+def linesFrom (m : Str) : Acc → List Layer → List Str
+  | _, [] => []
+  | a, l :: r => lineOf a l :: linesFrom m (compStep m a l) r
+
+theorem linesFrom_length (m : Str) (a : Acc) (ls : List Layer) : (linesFrom m a ls).length = ls.length := by
+  induction ls generalizing a with
+  | nil => rfl
+  | cons l r ih => simp [linesFrom, ih]
+
+theorem foldl_compStep_lines (m : Str) (ls : List Layer) (a : Acc) :
+    (ls.foldl (compStep m) a).msg =
+      a.msg ++ (if ls = [] then [] else a.sep ++ joinWith nlS (linesFrom m a ls)) := by
+  induction ls generalizing a with
+  | nil => simp
+  | cons l r ih =>
+    rw [List.foldl_cons, ih]
+    cases r with
+    | nil => simp [compStep, linesFrom, joinWith]
+    | cons l2 r2 =>
+      simp only [List.cons_ne_nil, if_false, linesFrom, joinWith]
+      simp [compStep, List.append_assoc]
+
+/-- after the header the message consists of exactly one line per layer (innermost first),
+    joined by newlines, then possibly the closing remark -/
+theorem C15_composition (P : Proc) (vf : Err → Str) (trim : List Str) (e : Err) :
+    ∃ lines tail, lines.length = (visitAll e).length ∧
+      (buildReport P vf trim e).message =
+        srcPrefix P e ++ verboseRedacted e ++ compHeader ++ joinWith nlS lines ++ tail := by
+  have hne : (reportLayers P vf trim e).reverse ≠ [] := by
+    have : (visitAll e) ≠ [] := by cases e <;> simp [visitAll]
+    simpa [reportLayers] using this
+  refine ⟨linesFrom (getDomain e) (initAcc P e) (reportLayers P vf trim e).reverse,
+    (if (compLoop P vf trim e).extraNum > 1 then nl :: b!"(check the extra data payloads)" else []), ?_, ?_⟩
+  · rw [linesFrom_length]; simp [reportLayers]
+  · show finalMsg (compLoop P vf trim e) = _
+    have h := foldl_compStep_lines (getDomain e) (reportLayers P vf trim e).reverse (initAcc P e)
+    simp only [hne, if_false] at h
+    have hs : (initAcc P e).sep = [] := rfl
+    have hm : (initAcc P e).msg = srcPrefix P e ++ verboseRedacted e ++ compHeader := rfl
+    rw [hs, hm] at h
+    unfold finalMsg compLoop
+    rw [h]
+    split <;> simp [List.append_assoc]
+
+/-- the line of a layer names its type (path removed) -/
+theorem lineOf_names_type (a : Acc) (l : Layer) : ∃ pre post, lineOf a l = pre ++ lastPathComponent l.origType ++ post := by
+  unfold lineOf
+  cases l.stack with
+  | some frames => exact ⟨_, _, rfl⟩
+  | none =>
+    simp only []
+    split
+    · exact ⟨[], b!": " ++ (l.details.head?.map firstLine).getD [], by simp [List.append_assoc]⟩
+    · exact ⟨[], [], by simp⟩
+
 /-! ### exceptions -/
 
 /-- the stacks of the layers that carry one, in the order the loop meets them -/
